@@ -81,7 +81,7 @@ Lemma direct_object_registry s :
   (M.in_reg c = true -> M.st c = M.CONNECTED /\ M.writer c = M.WOpen) /\
   (M.in_reg c = false -> M.writer c <> M.WOpen /\ M.st c <> M.CONNECTING).
 Proof.
-  destruct s as [m a adl d dd i idl c sc]. unfold delays_ok. cbn. intros -> (H1 & H2 & H3).
+  destruct s as [m a adl d dd i idl c sc ct]. unfold delays_ok. cbn. intros -> (H1 & H2 & H3).
   destruct m, a, d, i, sc; cunf; cunf; cbn -[M.run M.init]; cases; try lia;
     vm_compute; repeat split; intros; try discriminate; try reflexivity.
 Qed.
@@ -94,7 +94,7 @@ Lemma direct_object_no_residue s :
 Proof.
   intros Hc Hd. pose proof (direct_object_registry s Hc Hd) as (Hq & Hr & _ & Hn).
   split.
-  - pose proof (residue_free_all s) as R. unfold residue_free in R.
+  - pose proof (residue_free_no_cancel s Hc) as R. unfold residue_free in R.
     repeat (apply andb_true_iff in R; destruct R as [R ?]). now apply negb_true_iff.
   - intros Hf. rewrite Hf in Hr. destruct (Hn Hr) as (Hw & Hs).
     unfold M.should_be_registered. destruct (M.kd (direct_object s)); cbn; try reflexivity;
